@@ -134,7 +134,9 @@ def cases(tier):
     for uname, mk, ports in units():
         for c0, c1 in itertools.permutations(ports, 2):
             for n in ([1, 2, 3, N] if tier != "thorough" else range(1, N + 1)):
-                for by in ("name", "signal"):
+                for by in ("name", "signal", "signal-name", "name-signal"):
+                    if by in ("signal-name", "name-signal") and n not in (1, 3):
+                        continue
                     yield (uname, c0, c1, n, by)
 
 
@@ -147,7 +149,9 @@ def check_series(case):
     mk = {u[0]: u[1] for u in units()}[uname]
     unit = mk()
     uports = unit.ports
-    conns = (c0, c1) if by == "name" else (uports[c0], uports[c1])
+    # the two series ports are given by name, as the unit's port objects, or one of each
+    conns = {"name": (c0, c1), "signal": (uports[c0], uports[c1]), "signal-name": (uports[c0], c1),
+             "name-signal": (c0, uports[c1])}[by]
     try:
         m = Series(unit=unit, conns=conns, nser=n)
     except Exception as e:
